@@ -52,8 +52,11 @@ def permutation_check(rep, tier, seed, scratch):
     groups, traces, scs = [], [], []
     for i in range(nscen):
         base = er.random_scenario(rng, nprocs=rng.randint(2, 4),
-                                  state_dependent=True,
+                                  state_dependent=(i % 2 == 0),
+                                  max_ts=rng.choice([3, 5, 7]),
                                   nsteps=rng.choice([0, 0, 2, 3]))
+        if i % 2:
+            base['calls'] = [[rng.randint(6, 14), True]]
         base['init'] = {'s': rng.randint(0, 3), 'p1': rng.randint(0, 2)}
         idx = []
         for j in range(k):
@@ -83,7 +86,21 @@ def permutation_check(rep, tier, seed, scratch):
                           {'scenario': scs[t], 'stuck_at': stuck, 'trace': traces[t]})
     nontrivial = 0
     for idx in groups:
-        if any(i in rej for i in idx):
+        bad = [i for i in idx if i in rej]
+        if bad and len(bad) < len(idx):
+            # the same composite is scheduled correctly under one listing order
+            # and not under another: the listing order is not moot
+            i = bad[0]
+            rules = sorted(tlc.pick_failing_rules(diags.get(i, [])))
+            rep.violation(
+                {'kind': 'permutation-rejected', 'rules': rules,
+                 'scenario': scenario_hash(scs[idx[0]])},
+                'the run is accepted under one listing order and rejected under another '
+                '(record %d, rules %s)' % (rej[i], rules),
+                {'accepted': scs[[j for j in idx if j not in rej][0]], 'rejected': scs[i],
+                 'stuck_at': rej[i], 'trace': traces[i]})
+            continue
+        if bad:
             continue
         base_rows = rows_of(traces[idx[0]])
         # a group is non-trivial when two processes write the shared variable
